@@ -25,6 +25,9 @@ inductive Op where
   | generate (ent blind : Option Bytes)
   | sanity (pub : Bytes)
   | g14
+  /-- something that happens in the environment and that `crypto_dh.c` must not depend on
+      (e.g. stale entries in OpenSSL's error queue): no effect on the model -/
+  | env
 
 inductive Out where
   | failed                                                     -- `fail | fail`
@@ -32,6 +35,7 @@ inductive Out where
   | generated (priv spec : Bytes) (model : Option Bytes)       -- `ok <priv> <spec> | …`
   | sanity (spec : Bool) (model : Option Bool)                 -- `0`/`-1` | `0`/`-1`/`?`
   | g14
+  | env
 
 def stepOp : Op → Out
   | .pub _ none => .failed
@@ -42,6 +46,7 @@ def stepOp : Op → Out
   | .generate (some p) (some b) => .generated p (specPow 2 p) (generatePub p b)
   | .sanity y => .sanity (decide (ofBE y < Spec.DH.p)) (sanitycheck y)
   | .g14 => .g14
+  | .env => .env
 
 /-! ## the monitor (`pmodel dhmon`) -/
 
